@@ -23,11 +23,12 @@ Canon(t, im) == CASE t = 1 -> <<1, im>> \o Rep(32 * Pop(im), 7) \o Depths(Pop(im
 Body(t, im, L) == SubSeq(Canon(t, im) \o Rep(4, 9), 1, L)
 MaxL(t, im) == Len(Canon(t, im)) + 3
 
-Types  == {1, 2, 3, 4, 5, 255}
+Types  == {0, 1, 2, 3, 4, 5, 255}      \* 0: an ordinary cell (only with the reference counts no cell can have)
 IMasks(t) == IF t # 1 THEN {0} ELSE IF Full THEN 0..7 ELSE {1, 2, 5, 7}
 DMasks(t, im) == IF t = 1 THEN {im, 0} \cup (IF Full THEN {7} ELSE {}) ELSE {0, 1}
-NRefs(t) == CASE t = 3 -> 0..2 [] t = 4 -> 0..3 [] OTHER -> 0..1
-Lens(t, im) == IF t \in {5, 255} THEN {1, 2, 9} ELSE 1..MaxL(t, im)
+\* 5..7: the descriptor's three reference bits can say what no cell has
+NRefs(t) == (CASE t = 0 -> {} [] t = 3 -> 0..2 [] t = 4 -> 0..3 [] OTHER -> 0..1) \cup {4, 5, 6, 7}
+Lens(t, im) == IF t \in {0, 5, 255} THEN {1, 2, 9} ELSE 1..MaxL(t, im)
 
 VARIABLES t, im, dm, L, nr, place, out
 vars == <<t, im, dm, L, nr, place, out>>
@@ -40,6 +41,7 @@ Table ==
 Hdr == [magic |-> "generic", idx |-> FALSE, crc |-> FALSE, cache |-> FALSE, size |-> 1, ob |-> 1, hashes |-> FALSE]
 Label(B) == LET P == Parse(B) IN IF P.ok THEN "accepted" ELSE P.err
 Init == /\ t \in Types /\ im \in IMasks(t) /\ dm \in DMasks(t, im) /\ L \in Lens(t, im) /\ nr \in NRefs(t)
+        /\ (nr >= 4 => L \in {1, 9, Len(Canon(t, im))})
         /\ place \in {"root", "child"} /\ out = "todo"
 Next == /\ out = "todo" /\ out' = "done" /\ UNCHANGED <<t, im, dm, L, nr, place>>
         /\ LET B == Write(Table, <<1>>, Hdr) IN
